@@ -124,6 +124,10 @@ type c09Task struct {
 	measClass string
 	meas      []byte
 	source    int // 0 cert table, 1 getter, 2 options
+	// blob is the endorsement this task's attestation carries in its certificate table (shape 2):
+	// the genuine one, another image's genuine one, or one with a broken signature
+	blob      []byte
+	blobClass string
 	want      bool
 	got       error
 }
@@ -189,6 +193,21 @@ func runC09(r *core.Run) {
 			c := []uint32{16, 24, 32}[r.Intn(3, "else-count")]
 			t.meas, t.measClass = is.Golden.SevSnp.Measurements[c], "endorsed-other-count"
 		}
+		t.blob, t.blobClass = is.Bytes, "genuine"
+		if shape == 2 && t.source == 0 {
+			switch r.Intn(4, "blob") {
+			case 1:
+				// another firmware with its own genuine endorsement: accepted in isolation
+				t.blob, t.blobClass = otherIs.Bytes, "other-genuine"
+				t.meas, t.measClass = otherIs.Golden.SevSnp.Measurements[[]uint32{2, 4, 8}[r.Intn(3, "other-blob-count")]], "endorsed-by-own-blob"
+				if named != 0 {
+					t.meas = otherIs.Golden.SevSnp.Measurements[named]
+				}
+			case 2:
+				// the right endorsement with a broken signature: rejected in isolation
+				t.blob, t.blobClass = Reassemble(is.Golden, nil, AttackerKey(a, 0), 0), "bad-signature"
+			}
+		}
 		tasks[i] = t
 	}
 	newOpts := func() *verify.Options {
@@ -204,7 +223,7 @@ func runC09(r *core.Run) {
 	call := func(t *c09Task, f func(*spb.Attestation, []byte) error, o *verify.Options, so *gcetcbendorsement.SevValidateOptions) error {
 		if shape == 2 {
 			if t.source == 0 {
-				return gcetcbendorsement.SevValidate(ctx, SnpAttestation(t.meas, is.Bytes), so)
+				return gcetcbendorsement.SevValidate(ctx, SnpAttestation(t.meas, t.blob), so)
 			}
 			return gcetcbendorsement.SevValidate(ctx, SnpAttestation(t.meas, nil), so)
 		}
@@ -255,7 +274,7 @@ func runC09(r *core.Run) {
 	r.Eventf("schedule shape=%d tasks=%d switches=%d picks=%d successive=%v", shape, nTasks, s.switches, len(s.picks), successive)
 	var desc []string
 	for i, t := range tasks {
-		desc = append(desc, fmt.Sprintf("%c:%s/src%d", 'A'+i, t.measClass, t.source))
+		desc = append(desc, fmt.Sprintf("%c:%s/src%d/%s", 'A'+i, t.measClass, t.source, t.blobClass))
 	}
 	for i, st := range s.tasks {
 		if st.panicV != nil {
@@ -265,6 +284,9 @@ func runC09(r *core.Run) {
 	where := fmt.Sprintf("shared=%d named=%d tasks=[%s] schedule=%s", shape, named, strings.Join(desc, " "), core.Short(sig, 80))
 	for i, t := range tasks {
 		got := t.got == nil
+		if t.blobClass == "bad-signature" && got {
+			r.Fail("unendorsed-accepted", fmt.Sprintf("bad-blob/shared-%d", shape), "%s: task %c's attestation carries an endorsement with a broken signature, yet it was accepted", where, 'A'+i)
+		}
 		if t.measClass == "unendorsed" && got {
 			r.Fail("unendorsed-accepted", fmt.Sprintf("shared-%d", shape), "%s: task %c's report carries a measurement the endorsement does not list, yet it was accepted (%d context switches)", where, 'A'+i, s.switches)
 		}
@@ -279,6 +301,19 @@ func runC09(r *core.Run) {
 	gotErr := call(probe, sharedF, sharedOpts, sharedSev)
 	if (wantErr == nil) != (gotErr == nil) {
 		r.Fail("result-differs-from-isolation", fmt.Sprintf("later-call/shared-%d", shape), "%s: after the calls above, an isolated call through the shared value gives accept=%v, a fresh value gives accept=%v", where, gotErr == nil, wantErr == nil)
+	}
+	if shape == 2 {
+		// and one whose own endorsement is forged
+		bad := &c09Task{meas: is.Golden.SevSnp.Measurements[2], measClass: "endorsed", source: 0, blob: Reassemble(is.Golden, nil, AttackerKey(a, 1), 0), blobClass: "bad-signature"}
+		if named != 0 {
+			bad.meas = is.Golden.SevSnp.Measurements[named]
+		}
+		f2, fs2 := newOpts(), newSevOpts()
+		w := call(bad, verify.SNPValidateFunc(f2), f2, fs2)
+		g := call(bad, sharedF, sharedOpts, sharedSev)
+		if (w == nil) != (g == nil) {
+			r.Fail("result-differs-from-isolation", "later-call/forged-blob/shared-2", "%s: after the calls above, an attestation carrying a forged endorsement gives accept=%v through the shared options, accept=%v through fresh ones", where, g == nil, w == nil)
+		}
 	}
 	if s.switches > 0 {
 		r.Probe("interleaved")
